@@ -130,7 +130,11 @@ def _block(draw, idx, hexgeom, allow_oxide, isotopics, allow_grid):
         b["interduct"] = draw(st.booleans())
         b["fr"] = [r4(draw(st.floats(0.85, 0.92))), r4(draw(st.floats(0.8, 0.95))), r4(draw(st.floats(0.45, 0.95)))]
         b["twoTypes"] = bool(draw(st.integers(0, 3)) == 0 and fam in MODS and (iso is None or (fam == "UZr" and isotopics[iso].get("uzr"))))
-        b["grid"] = bool(allow_grid and hexgeom and draw(st.integers(0, 2)) == 0)
+        b["grid"] = bool(allow_grid and draw(st.integers(0, 2)) == 0)  # hex pin lattice in hex blocks, Cartesian in Cartesian
+        # a further component on the lattice whose shape has NO default multiplicity (Circle and Hexagon default to 1):
+        # its mult can only come from the lattice when it is left off, as the documentation recommends
+        b["latticeExtra"] = draw(st.sampled_from(["Square", None, "Rectangle", "SolidRectangle", None]))  # (Triangle has no bounding circle in armi: no block with one can be built)
+        b["extraMult"] = draw(st.sampled_from(["omit", "count", "omit", "one"]))
         b["gridRoute"] = draw(st.sampled_from(["map", "contents"]))
         b["gridFill"] = draw(st.lists(st.integers(0, 5), min_size=1, max_size=12))
         b["gridMult"] = draw(st.sampled_from(["omit", "omit", "one", "count"]))
@@ -286,15 +290,34 @@ def two_types(b):
     return bool(b.get("twoTypes")) and b.get("n", 1) >= 2
 
 
-def pin_grid_cells(b):
-    """{(i,j): id} of the pin lattice of block spec ``b`` (corners-up full hex lattice of the pins)."""
+def pin_grid_cells(b, hexgeom=True):
+    """{(i,j): id} of the pin lattice of block spec ``b`` (full hex lattice of the pins, or a Cartesian one)."""
     n = b["n"]
+    fill = b["gridFill"]
+    if hexgeom is False:
+        # Cartesian lattice: the smallest square holding n pins, centred indices (a full-core map is centred on reading)
+        side = 1
+        while side * side < n:
+            side += 1
+        out = {}
+        for k, (i, j) in enumerate(mm.domain_cells("cart", (side, side))):
+            f = fill[k % len(fill)]
+            if f == 0 and side > 1 and k != 0:
+                continue  # hole
+            out[(i - side // 2, j - side // 2)] = "2" if (f == 5 and two_types(b)) else "1"
+        cells = sorted(out)
+        if two_types(b):
+            out[cells[0]] = "2"
+            out[(side - 1 - side // 2, side - 1 - side // 2)] = "1"
+        # the corner cells fix the extent of the drawn map, which fixes the centring
+        out.setdefault((-(side // 2), -(side // 2)), "1")
+        out.setdefault((side - 1 - side // 2, side - 1 - side // 2), "1")
+        return side, out
     rings = 1
     while 1 + 3 * rings * (rings - 1) < n:
         rings += 1
     R = rings - 1
     cells = mm.domain_cells("hexFullTips", R) if R > 0 else [(0, 0)]
-    fill = b["gridFill"]
     out = {}
     for k, c in enumerate(cells):
         f = fill[k % len(fill)]
@@ -364,13 +387,14 @@ def render_block(spec, b, grids):
         n = b["n"]
         use_grid = b["grid"]
         if use_grid:
-            R, cells = pin_grid_cells(b)
+            R, cells = pin_grid_cells(b, hexgeom)
             gname = "pins%d" % b["idx"]
             grids[gname] = (R, cells, b["gridRoute"])
             header.append("        grid name: %s" % gname)
             n1 = sum(1 for v in cells.values() if v == "1")
             n2 = sum(1 for v in cells.values() if v == "2")
-        clad_od, wire_od = pin_dims(n, b["wire"])
+        # (a Cartesian pin lattice may hold up to side x side pins: they are sized for the full square)
+        clad_od, wire_od = pin_dims(R * R if (use_grid and not hexgeom) else n, b["wire"])
         fault = b.get("fault")
         if fault == "pins-exceed-duct":
             # ARMI documents two refusals for oversized pins: HexBlock.verifyBlockDims (wire-wrapped bundle against the inner
@@ -430,6 +454,18 @@ def render_block(spec, b, grids):
                     f.append(("mult", multval))
             comps.append((nm, f))
         all_ids = "[1, 2]" if (use_grid and two) else ("[1]" if use_grid else None)
+        if use_grid and b.get("latticeExtra"):
+            sh, w = b["latticeExtra"], r4(clad_od * 0.1)
+            dims = {"Square": [("widthOuter", _num(w)), ("widthInner", 0.0)],
+                    "Rectangle": [("lengthOuter", _num(w)), ("lengthInner", 0.0), ("widthOuter", _num(r4(w / 2.0))), ("widthInner", 0.0)],
+                    "SolidRectangle": [("lengthOuter", _num(w)), ("widthOuter", _num(r4(w / 2.0)))],
+                    "Triangle": [("base", _num(w)), ("height", _num(r4(w / 2.0)))]}[sh]
+            ef = [("shape", spell(sh)), ("material", "HT9"), ("Tinput", tin), ("Thot", min(thot, 470.0))] + dims + [("latticeIDs", all_ids)]
+            if b["extraMult"] == "count":
+                ef.append(("mult", n1 + n2))
+            elif b["extraMult"] == "one":
+                ef.append(("mult", 1.0))
+            comps.append(("skid", ef))
         first = names[0]
 
         def mult_field():
@@ -663,9 +699,14 @@ def render(spec):
         L += grid_text("core", spec["geom"], spec["symmetry"], contents=contents, pitch=pitch)
     if spec["sfp"]:
         L += ["    sfp:", "        geom: cartesian", "        symmetry: full", "        lattice pitch: {x: 50.0, y: 50.0}"]
-    pin_geom = "hex_corners_up" if spec["geom"] == "hex" else "hex"
+    pin_geom = {"hex": "hex_corners_up", "hex_corners_up": "hex"}.get(spec["geom"], "cartesian")
     for gname, (R, cells, route) in grids.items():
-        if route == "map" and pin_geom == "hex_corners_up":
+        if pin_geom == "cartesian" and route == "map":
+            lo = -(R // 2)
+            shifted = {(i - lo, j - lo): v for (i, j), v in cells.items()}
+            rows, offs = mm.render_rows("cart", (R, R), shifted, strip_trailing=False)
+            L += grid_text(gname, pin_geom, "full", lattice=mm.rows_to_text(rows, offs))
+        elif route == "map" and pin_geom == "hex_corners_up":
             rows, offs = mm.render_rows("hexFullTips", R, cells, strip_trailing=True)
             L += grid_text(gname, pin_geom, "full", lattice=mm.rows_to_text(rows, offs))
         else:
